@@ -3307,7 +3307,9 @@ class BatchDataset(Dataset):
                 # Don't compute the examples of the incomplete last batch
                 # just to drop them and raise.
                 raise IndexError(item)
-            input_index = item * self.batch_size
+            # int(): a batch size given as a narrow numpy integer would make
+            # the product wrap around as well.
+            input_index = item * int(self.batch_size)
             current_batch = []
             for i in range(self.batch_size):
                 try:
